@@ -532,3 +532,7 @@ Proof. intros H. cbn [wchunk_size]. apply data_chunk_fits. exact H. Qed.
 Lemma wchunk_size_small w :
   match w with WEmpty => wchunk_size w = 0 | WSack _ _ => wchunk_size w = 16 | WHeartbeat _ => wchunk_size w = 12 | _ => True end.
 Proof. destruct w; try exact I; reflexivity. Qed.
+
+Lemma batch_preserves_chunks (A : Type) (sz : A -> Z) chunks :
+  concat (batch sz chunks) = chunks /\ Forall (fun b => b <> []) (batch sz chunks).
+Proof. exact (conj (batch_concat sz chunks) (batch_nonempty sz chunks)). Qed.
